@@ -3,7 +3,7 @@ from __future__ import annotations
 
 import z3
 
-from .core import (EnumVal, Instance, Rng, SArr, SClass, SList, SObj, SymCallable,
+from .core import (EnumVal, Instance, Rng, SArr, SClass, SList, SObj, SymCallable, zint,
                    Unsupported, concretize)
 
 
@@ -134,6 +134,13 @@ class InputFactory:
             v = I.fresh_int(hint)
             I.assume(v >= 0)
             return SymInput(sort, v, lambda m: mint(m, v), coords=[v])
+        if sort == 'IntSeq':
+            # list of integers of any length: length n >= 0, elements V(i)
+            n = I.fresh_int(hint + '_len')
+            I.assume(n >= 0)
+            V = z3.Function(I.fresh_name(hint + '_elem'), z3.IntSort(), z3.IntSort())
+            lst = SList(n, lambda i: V(zint(i)))
+            return SymInput(sort, lst, lambda m: [mint(m, V(z3.IntVal(i))) for i in range(mint(m, n))], sizes=[n])
         if sort == 'bool':
             v = I.fresh_bool(hint)
             return SymInput(sort, v, lambda m: bool(z3.is_true(mval(m, v))))
@@ -226,6 +233,12 @@ class InputFactory:
                                                                         for j in range(ww)] for i in range(hh)]})
                     elif d[0] == 'random':
                         out.append({'kind': 'random', 'values': [float(mval(m, d[1][0]).as_fraction())]})
+                    elif d[0] in ('shuffle_fn', 'sample'):
+                        f = d[1]
+                        n = d[2] if d[0] == 'shuffle_fn' else d[2][1]
+                        nn = mint(m, concretize_z(n))
+                        out.append({'kind': 'shuffle' if d[0] == 'shuffle_fn' else 'choices',
+                                    'values': [mint(m, f(z3.IntVal(i))) for i in range(max(nn, 0))]})
                     else:
                         out.append({'kind': d[0], 'values': [mint(m, t) for t in d[1]]})
                 return {'Rng': out}
@@ -262,14 +275,12 @@ class InputFactory:
         if sort == 'VisFn':
             return self.make_visfn(hint)
         if sort == 'RealArr':
-            from .core import zint
             h, w = I.fresh_int(hint + '_h'), I.fresh_int(hint + '_w')
             I.assume(z3.And(h >= 0, w >= 0))
             V = z3.Function(I.fresh_name(hint + '_A'), z3.IntSort(), z3.IntSort(), z3.RealSort())
             arr = SArr(h, w, lambda i, j: V(zint(i), zint(j)), 'real')
             return SymInput(sort, arr, lambda m: {'unextractable': 'array produced by a stub'}, sizes=[h, w])
         if sort in ('BoolArr', 'IntArr'):
-            from .core import zint
             h, w = I.fresh_int(hint + '_h'), I.fresh_int(hint + '_w')
             I.assume(z3.And(h >= 0, w >= 0))
             zs = z3.BoolSort() if sort == 'BoolArr' else z3.IntSort()
@@ -288,7 +299,6 @@ class InputFactory:
             name = '_partially_occluded_next_positions_front_' + ('left' if left else 'right')
             return SymInput(sort, vf.ns[name], lambda m: {'NextPosFn': name})
         if sort == 'Rays':
-            from .core import zint
             nr = I.fresh_int(hint + '_n')
             I.assume(nr >= 0)
             LEN = z3.Function(I.fresh_name(hint + '_len'), z3.IntSort(), z3.IntSort())
@@ -340,7 +350,6 @@ class InputFactory:
             h, w = I.fresh_int(hint + '_h'), I.fresh_int(hint + '_w')
             I.assume(z3.And(h >= 0, w >= 0))
             V = z3.Function(I.fresh_name(hint + '_V'), z3.IntSort(), z3.IntSort(), z3.BoolSort())
-            from .core import zint
             arr = SArr(h, w, lambda i, j: V(zint(i), zint(j)), 'bool')
             from .verify import snapshot
             calls.append({'h': h, 'w': w, 'V': V, 'result': arr, 'args': [snapshot(I, x) for x in args],
